@@ -3,7 +3,7 @@
    (c06_call_runs) — the loop keeps nothing else between iterations, so calling again after an error re-enters it
    where it left; at that level faults are dropped from the schedule without changing anything (c06_faults_invisible). *)
 From FB Require Import Sem.Base Sem.Lemmas Model.Fb Spec.Api Spec.Frames Spec.Retry
-  Facets.Fb Facets.Fb2 Facets.Rf Facets.RfRefine Facets.C06.
+  Facets.Fb Facets.Fb2 Facets.Rf Facets.RfRefine Facets.C06 Facets.C06Retry.
 Open Scope Z_scope.
 
 Theorem c06_call_runs : forall SIZE chk RS (R : Reader RS) (AR : AReader RS) df,
@@ -49,9 +49,35 @@ Example c06_ex :
   exists w2, read_frame true fstream_rd 5 df w1 = Val (Done (FFrame [97; 98])) w2.
 Proof. cbv zeta. eexists. split; [vm_compute; reflexivity|]. split; [reflexivity|]. eexists. vm_compute. reflexivity. Qed.
 
+(* end to end: the caller that calls read_frame again after every transient error (an executable loop over the translated
+   read_frame, any reader implementing the failing transport, any deframer that answers within bounds), wherever the faults are and
+   however many: it ends as a run of the transport with the faults removed — same result, same unread bytes, same unpulled bytes,
+   same remaining chunks *)
+Theorem c06_retrying_caller : forall SIZE chk (R : Reader fstream) df,
+  implements R fstream_ar -> (forall u, zlen u <= SIZE -> df_in_bounds df u) ->
+  forall fuel tries s st r s' st', Inv2 SIZE s -> all_transient st ->
+  retry chk R df fuel tries (s, st) = Val (Done r) (s', st') ->
+  runs (abody SIZE fstream_ar df) (clean (unread s, st)) r (clean (unread s', st')) /\ Inv2 SIZE s'.
+Proof. intros SIZE chk R df HR Hdf. exact (retrying_caller_sees_no_faults SIZE chk R HR df Hdf). Qed.
+
+(* non-vacuity: a frame arrives in two chunks with a TimedOut and a WouldBlock between them; three calls, the third returns it *)
+Example c06_retry_ex :
+  let st := {| f_rest := [97; 98; 10; 99]; f_sched := [Give 2; Fail TimedOut; Fail WouldBlock; Give 2] |} in
+  all_transient st /\
+  match retry true fstream_rd (fun d => match d with [97; 98; 10] => DFrame 0 2 3 | [97; 98; 10; 99] => DFrame 0 2 3 | _ => DNone end) 8 5 (new 8, st) with
+  | Val (Done (FFrame p)) (s', st') => p = [97; 98] /\ f_sched st' = []
+  | _ => False
+  end.
+Proof.
+  split.
+  - intros k [H|[H|[H|[H|[]]]]]; inversion H; reflexivity.
+  - vm_compute. auto.
+Qed.
+
 Print Assumptions c06_call_runs.
 Print Assumptions c06_faults_invisible.
 Print Assumptions c06_error_keeps_everything.
 Print Assumptions c06_own_error_repeats.
 Print Assumptions c06_panic.
 Print Assumptions c06_transport_exists.
+Print Assumptions c06_retrying_caller.
